@@ -19,6 +19,7 @@ package main
 
 import (
 	"fmt"
+	"path/filepath"
 	"regexp"
 	"strconv"
 	"strings"
@@ -36,6 +37,7 @@ const (
 	c05SynStyleCounts
 	c05SynStyleNoCounts
 	c05SynSwapIDs
+	c05SynStripDefaults // [Content_Types].xml lists only the Default extensions the package uses
 	c05SynAll = 1<<iota - 1
 )
 
@@ -47,6 +49,7 @@ var (
 	c05ReCellR     = regexp.MustCompile(`<c r="[A-Z]+\d+"`)
 	c05ReEmptyRow  = regexp.MustCompile(`<row r="\d+"></row>`)
 	c05ReRowOpen   = regexp.MustCompile(`<row( r="\d+")?`)
+	c05ReDefault   = regexp.MustCompile(`<Default Extension="([A-Za-z0-9]+)" ContentType="[^"]*"(></Default>|/>)`)
 	c05ReStyleCnt  = regexp.MustCompile(`<(fonts|fills|borders|cellStyleXfs|cellXfs|cellStyles|dxfs|numFmts) count="(\d+)"`)
 )
 
@@ -79,6 +82,9 @@ func c05SynthBase(variant int) []byte {
 		_ = f.SetCellStr("Data", "A"+strconv.Itoa(r), words[r%len(words)])
 		_ = f.SetCellStr("Data", "B"+strconv.Itoa(r+6), words[(r+1)%len(words)])
 	}
+	// Sheet1 owns a drawing (one png picture) and a VML part (one comment); Data owns neither
+	_ = f.AddPicture("Sheet1", "F1", filepath.Join(c05Repo(), "test", "images", "excel.png"), &xl.GraphicOptions{ScaleX: 0.3, ScaleY: 0.3})
+	_ = f.AddComment("Sheet1", xl.Comment{Cell: "E1", Author: "Producer", Text: "existing comment"})
 	_ = f.SetDefinedName(&xl.DefinedName{Name: "Total", RefersTo: "Sheet1!$D$6"})
 	_ = f.SetDefinedName(&xl.DefinedName{Name: "Local", RefersTo: "Data!$A$1:$A$3", Scope: "Data"})
 	buf, err := f.WriteToBuffer()
@@ -149,11 +155,23 @@ func c05Synth(variant, flags int) []byte {
 	if flags&c05SynSwapIDs != 0 {
 		data = c05SwapSheetIDs(data)
 	}
+	if flags&c05SynStripDefaults != 0 {
+		// another producer lists only what it uses: rels, xml, png (the picture), vml (the comment)
+		data = c05RewriteZip(data, "[Content_Types].xml", func(b []byte) []byte {
+			return []byte(c05ReDefault.ReplaceAllStringFunc(string(b), func(m string) string {
+				switch c05ReDefault.FindStringSubmatch(m)[1] {
+				case "rels", "xml", "png", "vml":
+					return m
+				}
+				return ""
+			}))
+		})
+	}
 	return data
 }
 
 func c05SynthName(flags int) string {
-	names := []string{"sst-count", "sst-nounique", "sst-nocounts", "no-r", "spans", "gaps", "style-counts", "style-nocounts", "swap-ids"}
+	names := []string{"sst-count", "sst-nounique", "sst-nocounts", "no-r", "spans", "gaps", "style-counts", "style-nocounts", "swap-ids", "strip-defaults"}
 	var out []string
 	for i, n := range names {
 		if flags&(1<<i) != 0 {
@@ -171,9 +189,9 @@ func c05SynthPick(rng *Rng) (variant, flags int) {
 	variant = rng.Intn(6)
 	switch rng.Intn(4) {
 	case 0:
-		flags = 1 << rng.Intn(9)
+		flags = 1 << rng.Intn(10)
 	case 1:
-		flags = 1<<rng.Intn(9) | 1<<rng.Intn(9)
+		flags = 1<<rng.Intn(10) | 1<<rng.Intn(10)
 	default:
 		flags = rng.Intn(c05SynAll + 1)
 	}
@@ -223,6 +241,30 @@ func c05SynthWitnesses() []c05Witness {
 		hist := append([]string{"h.openbytes " + hx(string(data)), "h.save"}, edits...)
 		ws = append(ws, c05Witness{"synth:" + c05SynthName(fl), hist})
 	}
+	// pictures of every supported format, comments and form controls on a sheet that already owns a
+	// drawing and a VML part and on one that owns neither; on the synthetic package whose content
+	// types list only the extensions in use, and on test/Book1.xlsx (Default jpeg only, Sheet1 owns a drawing)
+	media := func(a, b string) []string {
+		var l []string
+		// first only the sheet that already owns a drawing / VML part, and a save: nothing else
+		// may register the Default extensions in between
+		for i := range c05Images {
+			col, _ := xl.ColumnNumberToName(8 + i)
+			l = append(l, "h.pic "+a+" "+col+"2 "+strconv.Itoa(i)+" 0")
+		}
+		l = append(l, "h.picbytes "+a+" H20 1 5", "h.comment "+a+" G3 "+hx("Au")+" "+hx("c1"), "h.formctl "+a+" G5 1 "+hx("Click"), "h.chart "+a+" J12 0 -1", "h.save")
+		for i := range c05Images {
+			col, _ := xl.ColumnNumberToName(8 + i)
+			l = append(l, "h.pic "+b+" "+col+"9 "+strconv.Itoa(i)+" 3")
+		}
+		l = append(l, "h.comment "+b+" G3 "+hx("Au")+" "+hx("c2"), "h.formctl "+b+" G5 4 "+hx("Check"), "h.shape "+b+" J12 0 "+hx("t"),
+			"h.save", "h.reopen", "h.pic "+a+" A30 2 1", "h.delpic "+a+" H2", "h.save")
+		return l
+	}
+	if data := c05Synth(2, c05SynStripDefaults); data != nil {
+		ws = append(ws, c05Witness{"synth:strip-defaults-media", append([]string{"h.openbytes " + hx(string(data)), "h.save"}, media(s1, s2)...)})
+	}
+	ws = append(ws, c05Witness{"book1-media", append([]string{"h.open Book1.xlsx"}, media(s1, hx("Sheet2"))...)})
 	// CopySheet in a workbook whose sheet IDs and part numbers disagree
 	if data := c05Synth(1, c05SynSwapIDs); data != nil {
 		ws = append(ws, c05Witness{"synth:swap-ids-copysheet", []string{"h.openbytes " + hx(string(data)),
